@@ -30,6 +30,7 @@ def parseOp (ws : List String) : Option Op :=
   | ["recv", d] => do pure (.recv (← bytesOfHex d))
   | ["pass"] => some .pass
   | ["teardown"] => some .teardown
+  | ["passdown"] => some .passdown
   | ["opt", n] => do pure (.opt (← n.toNat?))
   | ["winsz", a, b] => do pure (.winsz (← a.toNat?) (← b.toNat?))
   | ["close"] => some .close
